@@ -259,6 +259,9 @@ def run(P, R, L):
     pair4(P, R, L)
     ord10(P, R, L)
     grd9(P, R, L)
+    from . import round12
+    R.clause("GRD-9 (identity)", "Ok(FileLock) is returned only after the inode of the locked file was found equal to the inode the path names once the lock was granted (flock is tied to the inode, the database to the path: a LOCK file unlinked by destroy_database between an opener's open and its flock would otherwise give that opener a lock that excludes nobody)")
+    round12.grd9_lock_file_identity(P, R, L)
     # Drop: wait loop before take (shared with C09 ORD-12)
     from .c09 import ord12
     ord12(P, R, L)
